@@ -107,11 +107,23 @@ ExactRaw(ens, T) == CountAll(ens, T, 1, 0, <<>>)
 Cum(ens, k) == SumTo([j \in DOMAIN ens |-> Sum(ens[j])], k)
 FloorCum(ens, T, k) == Cum(ens, k) \div T
 Boundary(ens, T, k) == Cum(ens, k) > 0 /\ (Cum(ens, k) % T) = 0
+\* When is the float64 arithmetic of the implementation EXACT (so that nothing can be lost)?  No species is penalised
+\* (0.01 is not a binary fraction), every species size is a power of two and AgeSignificance is dyadic (the shared
+\* adjusted fitness is then a small dyadic number and sums of them are exact), the population mean is dyadic and so
+\* is every expectation (a correctly rounded division returns a representable quotient exactly).
+RECURSIVE IsPow2(_)
+IsPow2(n) == n = 1 \/ (n > 1 /\ n % 2 = 0 /\ IsPow2(n \div 2))
+Dyadic(num, den) == num = 0 \/ IsPow2(den \div Gcd(num, den))
+FloatExact(sizes, penalised, sigd, adjs, lden, ens, T) ==
+    /\ \A k \in DOMAIN sizes : IsPow2(sizes[k]) /\ ~penalised[k]
+    /\ IsPow2(sigd)
+    /\ Dyadic(Sum(AllAdj(adjs)), NOrg(adjs) * lden)
+    /\ \A k \in DOMAIN ens : \A j \in DOMAIN ens[k] : Dyadic(ens[k][j], T)
 \* admissible float64 losses
-LossOK(ens, T, lost) ==
+LossOK(ens, T, lost, exact) ==
     \A k \in DOMAIN ens :
         /\ lost[k] \in {0, 1}
-        /\ lost[k] = 1 => Boundary(ens, T, k)
+        /\ lost[k] = 1 => (Boundary(ens, T, k) /\ ~exact)
         /\ Sum(ens[k]) = 0 => lost[k] = (IF k = 1 THEN 0 ELSE lost[k - 1])
 RawQuota(ens, T, lost) ==
     [k \in DOMAIN ens |-> (FloorCum(ens, T, k) - lost[k]) - (IF k = 1 THEN 0 ELSE FloorCum(ens, T, k - 1) - lost[k - 1])]
